@@ -741,6 +741,9 @@ class Evaluator:
             if self.ints and v[0] == "tuple" and str(e["name"]).isdigit() and int(e["name"]) < len(v[1]):
                 yield s, v[1][int(e["name"])]
                 continue
+            if self.ints and v[0] == "range" and e["name"] in ("start", "end") and not v[3]:
+                yield s, (v[1] if e["name"] == "start" else v[2])          # `range.end` of a concrete `a..b`
+                continue
             yield s, ("field", e["name"], v)
 
     def ev_Index(self, e, st):
